@@ -210,7 +210,7 @@ def run(ctx):
     vc = import_virocon()
     ctx.rule = (
         "contours: the configuration classes enumerated by TLC (spec/HDCGen.tla), instantiated as in C02 (quick: 60 "
-        "classes + 1 default-deltas contour; thorough: every fit/cut class, every 4th small class + big grids), several classes designed to cut "
+        "classes; thorough: every fit/cut class, every 4th small class + big grids), several classes designed to cut "
         "the region into pieces (coarse grid + narrow conditionals) or to be anisotropic (cell-size ratio 3, 10), "
         "10 / 60 bi-modal models (U-shaped beta conditional moving with the given: tilted parallel bands whose bounding "
         "boxes overlap, 2-D and 3-D), 8 / 48 single regions with a hole (direction variables with mean direction north on "
@@ -238,6 +238,12 @@ def run(ctx):
         ctx.model_check("HDC", cfg, must_cover=("Erode", "Label"), timeout=3000)
     if not ctx.quick:
         ctx.model_check("HDC", "MC_HDC_mask44.cfg", timeout=3000)       # 65 536 masks, no coverage statistics
+    # regions with holes (whole 7 x 7 grid minus any subset of its inner 3 x 3 block): one set per REGION;
+    # labelling the boundary pieces instead (the code before fix 87ce4d1) must violate it
+    ctx.model_check("HDC", "MC_HDC_holes77.cfg", must_cover=("Erode", "Label"), timeout=3000)
+    if not ctx.quick:
+        ctx.model_check("HDC", "MC_HDC_holes87.cfg", timeout=3000)
+    ctx.model_check("HDC", "MC_HDC_mut_labelboundary.cfg", expect_violation="OneSetPerRegion")
     ctx.model_check("HDC", "MC_HDC_mut_cross.cfg", expect_violation="CoordsAreBoundary")
     ctx.model_check("LineSort", "MC_LineSort_quick.cfg", must_cover=("Build", "Visit", "Exhausted"), timeout=3000)
     if not ctx.quick:
@@ -250,7 +256,8 @@ def run(ctx):
     # R
     cfgs = ctx.generate("HDCGen", "Gen_HDC.cfg")
     ctx.notes["configuration_classes"] = len(cfgs)
-    cases = contour_cases(ctx, vc, cfgs, seed_shift=15, grids=GRID_MIX_C15, n_quick=60, fit_twice=False)
+    cases = contour_cases(ctx, vc, cfgs, seed_shift=15, grids=GRID_MIX_C15, n_quick=60, fit_twice=False,
+                          n_default_quick=0)
     cases += H.tiny_region_cases()
     # bi-modal conditionals (U-shaped beta moving with the given): tilted parallel bands whose
     # bounding boxes overlap
